@@ -270,4 +270,16 @@ theorem C46_never_raises_exact (s : State) (ops : List Op) : ∃ s', run exactAr
       obtain ⟨s1, h1⟩ := action_total exactArith exact_doubling s st i r sp p
       simp only [run, step, h1]; exact ih _
 
+
+/-- the binary64 instantiation (what the driver runs against the implementation) never raises -/
+theorem C46_never_raises_binary64 (s : State) (ops : List Op) : ∃ s', run floatArith s ops = .ok s' := by
+  induction ops generalizing s with
+  | nil => exact ⟨s, rfl⟩
+  | cons op ops ih =>
+    cases op with
+    | restart => simp only [run, step]; exact ih _
+    | update st i r sp p =>
+      obtain ⟨s1, h1⟩ := action_total floatArith float_doubling s st i r sp p
+      simp only [run, step, h1]; exact ih _
+
 end Ioflo.Pid
